@@ -25,7 +25,7 @@ import (
 // job is one history to run.
 type job struct {
 	Idx  int    `json:"idx"`
-	Kind string `json:"kind"` // random | split | silent | big | manyfiles
+	Kind string `json:"kind"` // random | split | silent | big | manyfiles | memdb
 }
 
 func main() {
@@ -37,9 +37,11 @@ func main() {
 	c.SetRule("one case = one step of a generated history 'flush* compact flush* compact ...' on one kv family with merger MetricDataMerger " +
 		"(1-4 metrics; series pools small/dense/sparse/boundary 65535|65536|131071/two-buckets; 1-5 fields of all six types or a histogram schema; " +
 		"per file a subset of metrics, fields and series, silent series, nil/empty fields; slot ranges same/nested/single/overlapping/disjoint/touching/>360 slots; " +
-		"compaction by Family.Compact, store tick or forced job; optional close+reopen); after every step all cells are read back through the query-path reader " +
-		"and compared with the naive cell map. Non-trivial = a compaction that merged >= 2 input files sharing at least one (metric, series, field) pair; " +
-		"distinct by (history, step).")
+		"compaction by Family.Compact, store tick, forced job or concurrently with a flush; optional close+reopen; kinds: random, manyfiles (6-12 level-0 tables), " +
+		"silent (single-field block with a byte-less series bucket), split (MaxFileSize 64..4096 so the output rolls over), big (3000/66000-series blocks), " +
+		"memdb (blocks flushed by the real memory database of a tsdb engine)); after every step all cells are read back through the query-path reader " +
+		"and compared with the naive cell map and, for a compaction, table by table with the values of its input tables. " +
+		"Non-trivial = a compaction that merged >= 2 input files sharing at least one (metric, series, field) pair; distinct by (history, step).")
 	c.Assume("blocks are written with the real flusher following memdb's call protocol; the flusher/reader pair is itself checked after every flush (classes C03/flush/...)")
 	c.Assume("values are integers |v| < 2^40 so that sums are exact in float64; field ids keep one type per metric (schema invariant)")
 	c.Assume("cells are loaded one field at a time, so the reader defect of C11 (single-field block mapped to query field 0) cannot influence the comparison")
@@ -51,11 +53,12 @@ func main() {
 			jobs = append(jobs, job{Idx: len(jobs), Kind: kind})
 		}
 	}
-	add("random", c.Pick(120, 10000))
-	add("manyfiles", c.Pick(6, 400))
-	add("silent", c.Pick(6, 150))
-	add("split", c.Pick(10, 500))
-	add("big", c.Pick(1, 10))
+	add("random", c.Pick(120, 6000))
+	add("manyfiles", c.Pick(6, 250))
+	add("silent", c.Pick(6, 100))
+	add("split", c.Pick(10, 300))
+	add("big", c.Pick(1, 8))
+	add("memdb", c.Pick(1, 6))
 
 	scratch := c.Scratch()
 	// batches: split and big histories alone (a split history is expected to kill its process while the rollover
@@ -63,7 +66,7 @@ func main() {
 	var batches [][]job
 	var cur []job
 	for _, j := range jobs {
-		if j.Kind == "split" || j.Kind == "big" {
+		if j.Kind == "split" || j.Kind == "big" || j.Kind == "memdb" {
 			batches = append(batches, []job{j})
 			continue
 		}
@@ -77,7 +80,8 @@ func main() {
 		batches = append(batches, cur)
 	}
 	// big ones first (longest)
-	sort.SliceStable(batches, func(a, b int) bool { return batches[a][0].Kind == "big" && batches[b][0].Kind != "big" })
+	long := func(k string) bool { return k == "big" || k == "memdb" }
+	sort.SliceStable(batches, func(a, b int) bool { return long(batches[a][0].Kind) && !long(batches[b][0].Kind) })
 
 	type batchOut struct {
 		results []*histResult
